@@ -98,7 +98,7 @@ func (n *node[T]) Methods() []string {
 		l.RLock()
 		defer l.RUnlock()
 	}
-	return n.methods()
+	return slices.Clone(n.methods()) // methodIndexes 为所有路由共用，不能将其内容直接暴露给用户。
 }
 
 // 与 Methods 相同，但是不加锁，由调用方保证已经处于锁的范围之内。
